@@ -6,5 +6,5 @@ cp -r /repo/fedjax "$D/fedjax"
 sed -i "$3" "$D/$2"
 if diff -q /repo/$2 "$D/$2" >/dev/null; then echo "MUTATION DID NOT APPLY"; rm -rf "$D"; exit 9; fi
 set +e
-VERIF_REPO="$D" /verif/check "$1" $4 2>&1 | grep -E "VIOLATION|UNDECIDED|OK |failed obligation|CRASH|Error|KNOWN" | head -8
+C15_BSHUF=1 VERIF_REPO="$D" /verif/check "$1" $4 2>&1 | grep -E "VIOLATION|UNDECIDED|OK |failed obligation|CRASH|Error|KNOWN" | head -8
 rm -rf "$D"
